@@ -329,25 +329,58 @@ def r6_diff(ctx, retsets):
     walks = {vf.root_of(vf.expr(fn, h.args[0])) for h in heads}
     ctx.check(walks == {NEW, OLD}, "C10.R6", "diff:walks-both-tables", "%s:%d" % (fn.relfile, fn.line), "walks the lists of %s" % sorted(vf.show(w) for w in walks),
               key="C10.R6:diff:walks")
-    good_rm = len(rm) == 1 and vf.expr(fn, rm[0].args[0]) == OLD
-    ctx.check(good_rm, "C10.R6", "diff:removes-from-old", rm[0].loc() if rm else "%s:%d" % (fn.relfile, fn.line), "entries of the new table are taken out of the old one", key="C10.R6:diff:remove")
-    for c in ns:
-        pol = vf.expr(fn, c.args[2])
-        G = es.Guards(fn, c)
-        own = bool(G.find_eq(lambda x: x[0] == "load" and vf.last_field(x[1]) == "key_entry.socket", lambda y: y == SOCK))
-        tab = vf.expr(fn, c.args[0]) == NEW
-        if pol == ("c", 1):
-            is_rm = lambda x: x[0] == "call" and x[1] == "spki_table_remove_entry"
-            cond = bool(G.find_eq(is_rm, lambda y: y == ("c", pdb.enum_value("SPKI_RECORD_NOT_FOUND")))) or \
-                bool(G.find_ne(is_rm, lambda y: y == ("c", pdb.enum_value("SPKI_SUCCESS"))))
-            ctx.check(own and tab and cond, "C10.R6", "diff:added", c.loc(), "'added' for own-socket entries of the new table that the old table did not have (own=%s, new table's callback=%s, not-in-old=%s)" % (own, tab, cond),
-                      key="C10.R6:diff:added")
-        elif pol == ("c", 0):
-            after = bool(rm) and fn.reaches(rm[0], c) and not fn.reaches(c, rm[0])
-            ctx.check(own and tab and after, "C10.R6", "diff:removed", c.loc(), "'removed' for the own-socket entries left in the old table after the first walk (own=%s, callback of the new table=%s, after the first walk=%s)" % (own, tab, after),
-                      key="C10.R6:diff:removed")
-        else:
-            ctx.violation("C10.R6", "diff:polarity", c.loc(), "notification with non-constant polarity", key="C10.R6:diff:polarity")
+    # evaluated with one entry in each list (so that the two walks may be two copies of one helper, switched by constants): the entry
+    # belongs to the reloading socket or not; taking it out of the old table succeeds / says 'not there' / fails
+    OWNV, OTHERV = 1000, 2000
+    succ_, nf_, err_ = pdb.enum_value("SPKI_SUCCESS"), pdb.enum_value("SPKI_RECORD_NOT_FOUND"), pdb.enum_value("SPKI_ERROR")
+    bad_d = []
+    ncell = 0
+    for own in (True, False):
+        for code in (succ_, nf_, err_):
+            ncell += 1
+
+            def values(pe, own=own):
+                f = vf.last_field(pe)
+                if f == "key_entry.socket":
+                    return OWNV if own else OTHERV
+                if f == "tommy_node_struct.next":
+                    return 0
+                return None
+
+            def cl(inst, E, st, code=code):
+                if inst.op != "call" or not inst.callee:
+                    return None
+                if inst.callee == "tommy_list_head":
+                    return [(["=walk:%s" % ("new" if vf.root_of(E.path_expr(inst.args[0])) == NEW else "old" if vf.root_of(E.path_expr(inst.args[0])) == OLD else "?")],
+                             {inst.ref: ("nin", frozenset([0]))})]
+                if inst.callee == "spki_table_remove_entry":
+                    t = E.path_expr(inst.args[0])
+                    return [(["rm" if t == OLD and st.get("walk") == "new" else "rm_wrong"], {inst.ref: flow.av_in(code)})]
+                if inst.callee == NOTIFY:
+                    pol = flow.av_single(E.val(inst.args[2]))
+                    t = E.path_expr(inst.args[0])
+                    ok = t == NEW and ((pol == 1 and st.get("walk") == "new") or (pol == 0 and st.get("walk") == "old"))
+                    return ["notify_%s%s" % ({1: "add", 0: "del"}.get(pol, "any"), "" if ok else "_wrong")]
+                return None
+            outs_d, _f = es.count_effects(fn, pdb, cl, retsets, cell={0: ("nin", frozenset([0])), 1: ("nin", frozenset([0])), 2: OWNV}, values=values, cap=96)
+            for o in outs_d:
+                c_ = {k: v for k, v in o["counts"].items() if k != "walk"}
+                if not own:
+                    exp_ok = c_ == {}
+                elif code == succ_:
+                    exp_ok = c_ == {"rm": 1, "notify_del": 1}
+                elif code == nf_:
+                    exp_ok = c_ == {"rm": 1, "notify_add": 1, "notify_del": 1}
+                else:
+                    exp_ok = c_ in ({"rm": 1, "notify_del": 1}, {"rm": 1, "notify_add": 1, "notify_del": 1})
+                if not exp_ok:
+                    bad_d.append("entry of %s socket, removal from the old table returns %d: %s" % ("the reloading" if own else "another", code, c_))
+            if not outs_d:
+                bad_d.append("no outcome for own=%s code=%d" % (own, code))
+    ctx.check(not bad_d, "C10.R6", "diff:added", ns[0].loc(), bad_d[0] if bad_d else
+              "%d cells (own socket? x result of taking the entry out of the old table): own entries of the new table are taken out of the old one, "
+              "reported 'added' when they were not there; own entries left in the old table are reported 'removed'; all through the new table's callback" % ncell,
+              key="C10.R6:diff:added")
     old_fp = ("fld", OLD, "spki_table.update_fp")
     stores = [i for i in fn.all_insts() if i.op == "store" and vf.expr(fn, i["ptr"]) == old_fp]
     nulls = [s for s in stores if vf.expr(fn, s["val"]) == ("c", 0)]
